@@ -26,6 +26,7 @@ var (
 	flagReplay  = flag.String("replay", "", "replay file: re-evaluate that obligation and print the diagnosis")
 	flagList    = flag.Bool("list", false, "print every obligation")
 	flagOverlay = flag.String("overlay", "", "JSON file mapping source paths to replacement files (sensitivity audit / seeded self-test)")
+	flagTry     = flag.String("trypatch", "", "apply a unified diff through the overlay and print the new failing obligations of -prop (default all)")
 	flagSelf    = flag.Bool("selftest", false, "evaluate every seeded change in seeded/ and every benign variant in selftest/benign/ through the overlay")
 	flagWorker  = flag.String("audit-worker", "", "internal: evaluate a batch of mutants (JSON file) and print one JSON outcome per line")
 	flagNoAudit = flag.Bool("no-audit", false, "thorough tier without the mutant sensitivity audit")
@@ -81,6 +82,9 @@ func main() {
 	if *flagMani {
 		writeManifest(root)
 		return
+	}
+	if *flagTry != "" {
+		os.Exit(tryPatch(root, *flagTry, strings.TrimSpace(*flagProp)))
 	}
 	if *flagSelf {
 		ran, bad, lines := selfTest(root, strings.TrimSpace(*flagProp), true)
